@@ -55,7 +55,15 @@ var (
 	okCnt = map[string]int{}
 )
 
+// counting is set by runRound before the goroutines of a round are released and read by them afterwards (ordered
+// by the start channel): only round 0 of a scenario is counted, so that in all other rounds the bookkeeping mutex
+// adds no happens-before edges between the operations under observation.
+var counting bool
+
 func ok(name string, err error) {
+	if !counting {
+		return
+	}
 	okMu.Lock()
 	if err == nil {
 		okCnt[name]++
@@ -119,6 +127,7 @@ func runRound(rng *rand.Rand, scen string, round int, ops []op, min, max int, al
 	}
 	sort.Strings(names)
 	fmt.Printf("round %s %d ops=%s\n", scen, round, strings.Join(names, ","))
+	counting = round == 0
 	start := make(chan struct{})
 	var wg sync.WaitGroup
 	for _, o := range picked {
@@ -501,10 +510,11 @@ func (b *broker) serve(c net.Conn) {
 
 // message-level fake RoundTripper for the Writer (no sockets)
 type fakeRT struct {
-	parts int
-	delay time.Duration
-	fail  int32 // every n-th produce fails with a temporary error (0 = never)
-	n     int32
+	partsOf func(topic string) int // optional: partition count per topic
+	parts   int
+	delay   time.Duration
+	fail    int32 // every n-th produce fails with a temporary error (0 = never)
+	n       int32
 }
 
 func (f *fakeRT) RoundTrip(ctx context.Context, addr net.Addr, req kafka.Request) (kafka.Response, error) {
@@ -513,9 +523,13 @@ func (f *fakeRT) RoundTrip(ctx context.Context, addr net.Addr, req kafka.Request
 	}
 	switch r := req.(type) {
 	case *meta.Request:
-		var ps []meta.ResponsePartition
-		for p := 0; p < f.parts; p++ {
-			ps = append(ps, meta.ResponsePartition{PartitionIndex: int32(p), LeaderID: 1})
+		n := f.parts
+		if f.partsOf != nil {
+			n = f.partsOf(r.TopicNames[0])
+		}
+		ps := make([]meta.ResponsePartition, n)
+		for p := range ps {
+			ps[p] = meta.ResponsePartition{PartitionIndex: int32(p), LeaderID: 1}
 		}
 		return &meta.Response{Brokers: []meta.ResponseBroker{{NodeID: 1, Host: "h", Port: 9092}},
 			Topics: []meta.ResponseTopic{{Name: r.TopicNames[0], Partitions: ps}}}, nil
@@ -632,6 +646,165 @@ func scenCodecs(rng *rand.Rand, rounds int) {
 			}})
 		}
 		runRound(rng, "codecs", i, ops, 8, 14)
+	}
+}
+
+// Writers over topics with GROWING partition counts (3, 64, 130, 300, 700, and beyond every round, so that the
+// process-wide partition-list cache of writer.go is re-allocated in every round) while keyed messages go through
+// the balancers that index / scan the offered partition list.
+func scenWriterGrow(rng *rand.Rand, rounds int) {
+	partsOf := func(topic string) int { n, _ := strconv.Atoi(strings.TrimPrefix(topic, "g")); return n }
+	for i := 0; i < rounds; i++ {
+		sizes := []int{3, 64, 130 + 384*i, 300 + 384*i, 700 + 384*i}
+		mkBal := map[string]func() kafka.Balancer{
+			"CRC32Balancer":   func() kafka.Balancer { return kafka.CRC32Balancer{} },
+			"Murmur2Balancer": func() kafka.Balancer { return kafka.Murmur2Balancer{} },
+			"LeastBytes":      func() kafka.Balancer { return &kafka.LeastBytes{} },
+			"Hash":            func() kafka.Balancer { return &kafka.Hash{} },
+			"RoundRobin":      func() kafka.Balancer { return nil },
+		}
+		var ops []op
+		var writers []*kafka.Writer
+		for _, bn := range []string{"CRC32Balancer", "Murmur2Balancer", "LeastBytes", "Hash", "RoundRobin"} {
+			for k := 0; k < 2; k++ {
+				w := &kafka.Writer{Addr: kafka.TCP("fake:9092"), Transport: &fakeRT{partsOf: partsOf}, Balancer: mkBal[bn](), BatchTimeout: time.Millisecond,
+					BatchSize: 4, RequiredAcks: kafka.RequireOne, MaxAttempts: 1}
+				writers = append(writers, w)
+				order := rng.Perm(len(sizes))
+				if k == 1 { // one writer of each kind starts with the topic that makes the cache grow
+					order = append([]int{len(sizes) - 1 - rng.Intn(3)}, order...)
+				}
+				var ms []kafka.Message
+				for _, si := range order {
+					for q := 0; q < 2; q++ {
+						ms = append(ms, kafka.Message{Topic: "g" + strconv.Itoa(sizes[si]), Key: []byte(strconv.Itoa(rng.Intn(5000))), Value: []byte("v")})
+					}
+				}
+				also("Writer.WriteMessages/"+bn, "Writer.WriteMessages", bn+".Balance")
+				ops = append(ops, op{"Writer.WriteMessages/" + bn, func() {
+					for _, m := range ms { // one message per call: one partition-list lookup + Balance per call
+						ctx, cancel := context.WithTimeout(context.Background(), 2*time.Second)
+						ok("Writer.WriteMessages/grow", w.WriteMessages(ctx, m))
+						cancel()
+					}
+				}})
+			}
+		}
+		runRound(rng, "writergrow", i, ops, 10, 10)
+		for _, w := range writers {
+			w.Close()
+		}
+	}
+}
+
+// a destination that fails from its n-th Write on, a source that fails after n bytes
+type failWriter struct{ n int }
+
+func (f *failWriter) Write(p []byte) (int, error) {
+	if f.n--; f.n < 0 {
+		return 0, errors.New("fake: destination failed")
+	}
+	return len(p), nil
+}
+
+type failReader struct {
+	r io.Reader
+	n int
+}
+
+func (f *failReader) Read(p []byte) (int, error) {
+	if f.n <= 0 {
+		return 0, errors.New("fake: source failed")
+	}
+	if len(p) > f.n {
+		p = p[:f.n]
+	}
+	n, err := f.r.Read(p)
+	f.n -= n
+	return n, err
+}
+
+// Codecs with failing destinations / sources (error at the n-th Write, at the final flush in Close, in the
+// middle of the compressed stream), double Close (defer + explicit, as protocol/record_v1.go and callers do),
+// concurrently with ordinary round trips through the same Codec values (shared pools).
+func scenCodecFail(rng *rand.Rand, rounds int) {
+	for i := 0; i < rounds; i++ {
+		var ops []op
+		for _, c := range []compress.Compression{compress.Gzip, compress.Snappy, compress.Lz4, compress.Zstd} {
+			codec := c.Codec()
+			name := codec.Name()
+			pkg := "compress/" + name + ".Codec."
+			small := []byte(fmt.Sprintf("small-%d", rng.Intn(1000)))
+			big := bytes.Repeat([]byte(fmt.Sprintf("payload-%d-", rng.Intn(1000))), 2000+rng.Intn(3000))
+			failAt := rng.Intn(3)
+			cut := 1 + rng.Intn(40)
+			for _, o := range []string{"roundtrip", "failclose", "failwrite", "failread", "doubleclose"} {
+				also(name+"."+o, pkg+"NewReader", pkg+"NewWriter", pkg+"Name", pkg+"Code")
+			}
+			roundtrip := func(data []byte) {
+				codec.Code()
+				var buf bytes.Buffer
+				w := codec.NewWriter(&buf)
+				w.Write(data)
+				w.Close()
+				r := codec.NewReader(&buf)
+				out, err := io.ReadAll(r)
+				r.Close()
+				if err != nil || !bytes.Equal(out, data) {
+					fmt.Printf("codec-mismatch %s err=%v len=%d/%d\n", name, err, len(out), len(data))
+				}
+			}
+			ops = append(ops,
+				op{name + ".roundtrip", func() { roundtrip(big); roundtrip(small) }},
+				op{name + ".failclose", func() { // nothing reaches the destination before the final flush: Close fails
+					w := codec.NewWriter(&failWriter{n: 0})
+					defer w.Close()
+					w.Write(small)
+					ok(name+".failclose", w.Close())
+					w.Close() // explicit Close + the deferred one: closing twice must be harmless
+					// whatever the failed Close gave back to the pools is taken out again by two users at once
+					var wg sync.WaitGroup
+					for k := 0; k < 4; k++ {
+						wg.Add(1)
+						go func() { defer wg.Done(); roundtrip(big); roundtrip(small) }()
+					}
+					wg.Wait()
+				}},
+				op{name + ".failwrite", func() { // the destination fails in the middle of the stream
+					w := codec.NewWriter(&failWriter{n: failAt})
+					defer w.Close()
+					for k := 0; k < 4; k++ {
+						w.Write(big)
+					}
+					ok(name+".failwrite", w.Close())
+					roundtrip(big)
+				}},
+				op{name + ".failread", func() { // the compressed source breaks off with an error
+					var buf bytes.Buffer
+					w := codec.NewWriter(&buf)
+					w.Write(big)
+					w.Close()
+					r := codec.NewReader(&failReader{r: &buf, n: cut})
+					defer r.Close()
+					_, err := io.ReadAll(r)
+					ok(name+".failread", err)
+					r.Close()
+					roundtrip(small)
+				}},
+				op{name + ".doubleclose", func() {
+					var buf bytes.Buffer
+					w := codec.NewWriter(&buf)
+					w.Write(small)
+					w.Close()
+					w.Close()
+					r := codec.NewReader(&buf)
+					io.ReadAll(r)
+					r.Close()
+					r.Close()
+					roundtrip(small)
+				}})
+		}
+		runRound(rng, "codecfail", i, ops, 14, 18, "gzip.failclose", "snappy.failclose", "lz4.failclose", "zstd.failclose")
 	}
 }
 
@@ -1046,7 +1219,7 @@ func scenTransport(rng *rand.Rand, rounds int) {
 }
 
 var scenarios = map[string]func(*rand.Rand, int){
-	"balancers": scenBalancers, "writer": scenWriter, "codecs": scenCodecs, "readerfront": scenReaderFront,
+	"balancers": scenBalancers, "writer": scenWriter, "writergrow": scenWriterGrow, "codecfail": scenCodecFail, "codecs": scenCodecs, "readerfront": scenReaderFront,
 	"reader": scenReader, "readergroup": scenReaderGroup, "readerrebalance": scenReaderRebalance, "conn": scenConn, "clientapis": scenClientAPIs, "transport": scenTransport,
 }
 
